@@ -41,6 +41,8 @@ import Midgard.Proofs.H5Meta
 import Midgard.Proofs.H5Bits
 import Midgard.Proofs.H5Alias
 import Midgard.Proofs.H5R2Fields
+import Midgard.Proofs.H5Time
+import Midgard.Proofs.H5XRound
 
 namespace Midgard.Props.C10
 open Midgard.H5Attr Midgard.H5 Midgard.Dataset
@@ -452,6 +454,125 @@ theorem alias_example :
     readBack, readDS, readTop, readField, readMembers, resolveAlias, fieldRead, readArr, readRef, refTarget, lookupGrp,
     RSt.alloc, RSt.set, regTop, fieldsDepth, Obj.withRef, lastName, objLen, readUnit, leafAt, findField, getField, Grp.subs]
 
+/-! ### the `time` attribute of positions (`Model/H5Time.lean`; registered by users of the library) -/
+
+/-- **the model with the `time` attribute is a conservative extension**: when no object has a `time`, `writeDSX` is
+`writeDS` and the file is read by `readBackX` exactly as by `readBack` (same heap, same dataset) — so every theorem of
+this file is a theorem about `writeDSX` / `readBackX` on datasets without `time`.  With `time` attached:
+`read_write_time` / `time_restored` below. -/
+theorem time_attribute_conservative (h : Heap) (tm : TM) (htm : ∀ o, tmOf tm o = none) (d : DS) (lvl : Nat) :
+    writeDSX h tm d lvl = writeDS h d lvl ∧
+    ∀ file, writeDS h d lvl = .ok file → (readBackX h d file).map (fun r => (r.1, r.2.2)) = readBack h d file :=
+  timeFree_conservative h tm htm d lvl
+
+
+/-- **the `time` attribute, write step**: a position (or posvel) without `other` whose `time` is an object the memo knows
+under `name` (a time field of the dataset, or an anonymous time already written) is written with the reference
+`time = name`; nothing is embedded -/
+theorem time_written_by_name (h : Heap) (tm : TM) (u : Option (List String)) (l fuel o t : Nat) (p name : Path) (memo : WMemo)
+    (ob : Obj) (hob : h[o]? = some ob) (hk : ob.kind.hasOther = true) (hr : ob.ref = none)
+    (ht : tmOf tm o = some t) (hm : memo.lookup t = some name) :
+    writeArrX h tm u l (fuel + 1) o p memo =
+      .ok (.mk { fieldname := p, src := o, unit := u, level := l, tref := some name } (some ob.strip) [], (o, p) :: memo) := by
+  have hat : attrName ob.kind = some "other" := by simp [attrName, hk]
+  simp [writeArrX, slotWrite, hob, hat, hr, hk, ht, hm]
+
+/-- **the `time` attribute, read step**: such a group, read when the memo has the object `n` for `name`, gives a new
+position whose `time` is that very object -/
+theorem time_read_by_name (file : File) (fuel n : Nat) (a : GAttrs) (ob : Obj) (s : RSt) (name : Path)
+    (hk : ob.kind.hasOther = true) (ha : a.ref = none) (ht : a.tref = some name) (hm : s.memo.lookup name = some n) :
+    ∃ s', readArrX file (fuel + 1) (.mk a (some ob) []) s = .ok (s.heap.length, s') ∧
+      s'.heap = s.heap ++ [ob.withRef none] ∧ s'.tm = s.tm ++ [some n] := by
+  have hat : attrName ob.kind = some "other" := by simp [attrName, hk]
+  have hd : ob.kind.isDelta = false := by cases hkk : ob.kind <;> simp_all [Kind.hasOther, Kind.isDelta]
+  refine ⟨({ s with heap := s.heap ++ [ob.withRef none], tm := s.tm ++ [some n] } : RSt).set a.fieldname s.heap.length, ?_, rfl, rfl⟩
+  simp only [readArrX, hat, refTarget, ha, List.lookup, readRef, hk, if_true, refTargetT, ht, hm, hd, Bool.false_and,
+    Bool.false_eq_true, if_false, allocX]
+
+/-- **`read (write d ℓ) = restrict d ℓ` with the `time` attribute of positions** (`writeDSX` / `readBackX`, what the driver
+runs for datasets with a `time` attached): for every `WritableX h tm d ℓ` the write succeeds; the read gives the fields of
+`restrict d ℓ` renumbered by `φ`; every object reachable through `other` / `ref_pos` / `time` is mapped to an object of the
+same kind, shape and rows whose `other` / `ref_pos` **and `time`** are the images of the old ones; `φ` is injective on the
+reachable objects -/
+theorem read_write_time (h : Heap) (tm : TM) (d : DS) (lvl : Nat) (hw : WritableX h tm d lvl) :
+    ∃ (file : File) (h' : Heap) (tm' : TM) (φ : Nat → Nat), writeDSX h tm d lvl = .ok file ∧
+      readBackX h d file = .ok (h', tm', { numObs := d.numObs, fields := renameFields φ (restrictFields lvl d.fields) }) ∧
+      (∀ x, ReachX h tm (restrictFields lvl d.fields) x → ∃ ob, h[x]? = some ob ∧ h'[φ x]? = some (ob.rename φ) ∧
+        tmOf tm' (φ x) = (tmE h tm x).map φ) ∧
+      (∀ x y, ReachX h tm (restrictFields lvl d.fields) x → ReachX h tm (restrictFields lvl d.fields) y → φ x = φ y → x = y) :=
+  roundTrip_coreX h tm d lvl hw
+
+/-- **a position's time is again the very field it referred to**: for any two field paths `p`, `q` — the `time` of field
+`p` *is* the array of field `q` after the read iff it was before -/
+theorem time_restored (h : Heap) (tm : TM) (d : DS) (lvl : Nat) (hw : WritableX h tm d lvl) :
+    ∃ (file : File) (h' : Heap) (tm' : TM) (d' : DS), writeDSX h tm d lvl = .ok file ∧ readBackX h d file = .ok (h', tm', d') ∧
+      ∀ p q : Path,
+        (∃ o t, leafAt (restrictFields lvl d.fields) p = some o ∧ tmE h tm o = some t ∧
+          leafAt (restrictFields lvl d.fields) q = some t) ↔
+        (∃ o' t', leafAt d'.fields p = some o' ∧ tmOf tm' o' = some t' ∧ leafAt d'.fields q = some t') := by
+  obtain ⟨file, h', tm', φ, hwr, hrd, himg, hinj⟩ := roundTrip_coreX h tm d lvl hw
+  refine ⟨file, h', tm', _, hwr, hrd, fun p q => ?_⟩
+  show _ ↔ ∃ o' t', leafAt (renameFields φ (restrictFields lvl d.fields)) p = some o' ∧ tmOf tm' o' = some t' ∧
+    leafAt (renameFields φ (restrictFields lvl d.fields)) q = some t'
+  rw [leafAt_rename, leafAt_rename]
+  constructor
+  · rintro ⟨o, t, hp, ht, hq⟩
+    obtain ⟨_, _, _, h3⟩ := himg o (.field (leafAt_mem hp))
+    exact ⟨φ o, φ t, by rw [hp]; rfl, by rw [h3, ht]; rfl, by rw [hq]; rfl⟩
+  · rintro ⟨o', t', hp, ht, hq⟩
+    cases hlp : leafAt (restrictFields lvl d.fields) p with
+    | none => rw [hlp] at hp; cases hp
+    | some o =>
+      rw [hlp] at hp
+      simp only [Option.map_some, Option.some.injEq] at hp
+      subst hp
+      have ho : ReachX h tm (restrictFields lvl d.fields) o := .field (leafAt_mem hlp)
+      obtain ⟨_, _, _, h3⟩ := himg o ho
+      rw [h3] at ht
+      cases hte : tmE h tm o with
+      | none => rw [hte] at ht; cases ht
+      | some t =>
+        rw [hte] at ht
+        simp only [Option.map_some, Option.some.injEq] at ht
+        cases hlq : leafAt (restrictFields lvl d.fields) q with
+        | none => rw [hlq] at hq; cases hq
+        | some b =>
+          rw [hlq] at hq
+          simp only [Option.map_some, Option.some.injEq] at hq
+          have : b = t := hinj b t (.field (leafAt_mem hlq)) (.time ho hte) (hq.trans ht.symm)
+          exact ⟨o, t, rfl, hte, by rw [this]⟩
+
+/-- a heap with a time (0), a position whose `time` is that time (1), a posvel with the same `time` and `other` = the
+position (2), an anonymous time (3) attached to a third position (4) -/
+def exTimeHeap : Heap :=
+  let r3 : Row := [.num 1, .num 2, .num 3]
+  let r6 : Row := [.num 1, .num 2, .num 3, .num 4, .num 5, .num 6]
+  [ { kind := .time, ndim := 1, cols := 1, rows := [[.num 2451545, .num 0]] },
+    { kind := .position, ndim := 2, cols := 3, rows := [r3] },
+    { kind := .posvel, ndim := 2, cols := 6, rows := [r6], other := some 1 },
+    { kind := .time, ndim := 1, cols := 1, rows := [[.num 2451546, .num 0]] },
+    { kind := .position, ndim := 2, cols := 3, rows := [r3] } ]
+
+def exTimeTM : TM := [none, some 0, some 0, none, some 3]
+
+def exTimeDS : DS := { numObs := 1, fields := [ .leaf "p" .position 1 1 none 3, .leaf "t" .time 0 1 none 3,
+  .coll "c" 1 3 [ .leaf "v" .posvel 2 1 none 3, .leaf "q" .position 4 1 none 3 ] ] }
+
+example : WritableX exTimeHeap exTimeTM exTimeDS 1 := by
+  have h1 : heapOK exTimeHeap = true := by decide +kernel
+  have h2 : tmOKB exTimeHeap exTimeTM = true := by decide +kernel
+  simp only [WritableX, writableXB, writableSB, h1, h2, Bool.true_and, Bool.and_true]
+  simp [exTimeDS, restrictFields, Midgard.H5.Field.level, fieldsOK, namesOK, unitOK, objLen, exTimeHeap,
+    Midgard.Dataset.names, Field.name]
+
+/-- the left-hand side of `time_restored` is inhabited: the `time` of `p` is the field `t` -/
+example : ∃ o t, leafAt (restrictFields 1 exTimeDS.fields) ["p"] = some o ∧ tmE exTimeHeap exTimeTM o = some t ∧
+    leafAt (restrictFields 1 exTimeDS.fields) ["t"] = some t := by
+  refine ⟨1, 0, ?_, ?_, ?_⟩
+  · simp [exTimeDS, restrictFields, Midgard.H5.Field.level, leafAt, findField, getField, Field.name]
+  · simp [tmE, exTimeHeap, exTimeTM, tmOf, Kind.hasOther]
+  · simp [exTimeDS, restrictFields, Midgard.H5.Field.level, leafAt, findField, getField, Field.name]
+
 end Midgard.Props.C10
 
 #print axioms Midgard.Props.C10.decode_encode
@@ -481,3 +602,8 @@ end Midgard.Props.C10
 
 #print axioms Midgard.Props.C10.field_sharing_restored
 #print axioms Midgard.Props.C10.writable_imp_writableS
+#print axioms Midgard.Props.C10.time_attribute_conservative
+#print axioms Midgard.Props.C10.time_written_by_name
+#print axioms Midgard.Props.C10.time_read_by_name
+#print axioms Midgard.Props.C10.read_write_time
+#print axioms Midgard.Props.C10.time_restored
